@@ -15,7 +15,7 @@ from nacl.bindings import (crypto_scalarmult, crypto_sign, crypto_sign_ed25519_p
                            crypto_sign_ed25519_sk_to_curve25519, crypto_sign_seed_keypair)
 from nacl.signing import VerifyKey
 
-from harness.translate import adnlsrc
+from harness.translate import adnlsrc, arith_adnl
 
 MAGIC_AES = bytes.fromhex('d4adbc2d')
 MAGIC_KEY = bytes.fromhex('c6b41348')
@@ -52,7 +52,8 @@ SPEC = dict(
         technique='Lean 4 proof over a model with primitives as parameters (laws as hypotheses); glue code regenerated from source by a translator and '
                   'proved equal to the model for all inputs + differential correspondence + direct property oracle',
     ),
-    translators=[('ciphers.py + signature.py + keys.py glue->Generated/AdnlSrc.lean', adnlsrc.regenerate)],
+    translators=[('ciphers.py + signature.py + keys.py glue->Generated/AdnlSrc.lean', adnlsrc.regenerate),
+                 ('keys.py generator decision lines->Generated/MnemonicNew.lean', arith_adnl.regenerator('MnemonicNew'))],
     lean_targets=['TonVerif.Proofs.SrcAdnl'],
     design_ref='DESIGN.md §6 C20',
     rule='channel case = (seed a, seed b, id variant: natural/swapped/equal/prefix/empty, plaintext length 0..4096 incl. block boundaries), both directions; '
@@ -421,6 +422,47 @@ def check_generated(ctx, ws, derive=True):
             ctx.fail('derive-pub:', 'private_key_to_public_key(secret) != public', inp)
 
 
+MAX_DRAWS = 24 * 8000       # a generator that has not returned after 8000 candidates (probability (255/256)^8000 < 1e-13) is stuck
+
+
+class GeneratorStuck(Exception):
+    pass
+
+
+class GuardedOs:
+    """the real `os` module inside keys.py with a bound on the number of urandom calls of ONE library call (a `while True` that never
+    finds a valid candidate must become a reported failure, not a hanging check)"""
+
+    def __init__(self, real, limit=MAX_DRAWS):
+        self.real, self.limit, self.draws = real, limit, 0
+
+    def urandom(self, n):
+        self.draws += 1
+        if self.draws > self.limit:
+            raise GeneratorStuck()
+        return self.real.urandom(n)
+
+    def __getattr__(self, name):
+        return getattr(self.real, name)
+
+
+def guarded_mnemonic_new(ctx, K, *args):
+    """-> (words | None, stuck)"""
+    if not hasattr(K, 'os'):
+        return call(K.mnemonic_new, *args), False
+    real = K.os
+    g = GuardedOs(real)
+    K.os = g
+    try:
+        return K.mnemonic_new(*args), False
+    except GeneratorStuck:
+        return None, True
+    except Exception:
+        return None, False
+    finally:
+        K.os = real
+
+
 class FakeOs:
     """stands in for the `os` module inside keys.py while a generator run is recorded."""
 
@@ -430,6 +472,8 @@ class FakeOs:
         self.first = first
 
     def urandom(self, n):
+        if len(self.log) >= MAX_DRAWS:
+            raise GeneratorStuck()
         r = self.rng.randbytes(n)
         if self.first is not None and len(self.first) <= n:        # a chosen first draw (boundary values), random afterwards
             r = self.first + r[len(self.first):]
@@ -456,7 +500,11 @@ def check_generator_stream(ctx, seed_bytes):
     inp = {'kind': 'generator', 'stream_seed': seed_bytes.hex()}
     ctx.count('generator-streams')
     if ws is None:
-        ctx.fail('generator-raised:', 'mnemonic_new raised', inp)
+        if len(fake.log) >= MAX_DRAWS:
+            ctx.fail('generator-stuck:', f'mnemonic_new() did not return after {MAX_DRAWS} os.urandom draws ({MAX_DRAWS // 24} candidates) of a seeded '
+                     'random stream: it never finds a valid candidate', inp, 'still running', '24 words after ~256 candidates')
+        else:
+            ctx.fail('generator-raised:', 'mnemonic_new raised', inp)
         return
     check_generated(ctx, ws, derive=False)
     # independent reading of the stream: 24 draws per candidate, index = first two bytes big endian & 2047
@@ -518,7 +566,11 @@ def mnemonic_cases(ctx):
     rng = ctx.rng
     gen = []
     for _ in range(ctx.n(10, 50)):
-        ws = call(K.mnemonic_new)
+        ws, stuck = guarded_mnemonic_new(ctx, K)
+        if stuck:
+            ctx.fail('generator-stuck:', f'mnemonic_new() did not return after {MAX_DRAWS} os.urandom draws ({MAX_DRAWS // 24} candidates): it never '
+                     'finds a valid candidate', {'kind': 'generator-live'}, 'still running', '24 words after ~256 candidates')
+            return
         if ws is None:
             ctx.fail('generator-raised:', 'mnemonic_new raised', {'kind': 'generator-live'})
             continue
@@ -654,6 +706,20 @@ def src_search(ctx):
                         break
         if len(ctx.failures) >= 8:
             break
+    lines = arith_adnl.search_points(ctx, ['MnemonicNew'])
+    if any(k.startswith('rn') for k in lines):
+        random_cases(ctx)
+    if any(k.startswith('mn') for k in lines) and not ctx.failures:
+        for _ in range(4):
+            check_generator_stream(ctx, rng.randbytes(8))
+            if ctx.failures:
+                break
+        if not ctx.failures:
+            ws, stuck = guarded_mnemonic_new(ctx, K)
+            if stuck:
+                ctx.fail('generator-stuck:', f'mnemonic_new() did not return after {MAX_DRAWS} os.urandom draws', {'kind': 'generator-live'})
+            elif ws is not None:
+                check_generated(ctx, ws)
 
 
 def run(ctx):
@@ -690,3 +756,10 @@ def replay(ctx, payload):
         check_random_number(ctx, int(inp['lo']), int(inp['hi']), bytes.fromhex(inp['stream_seed']), bytes.fromhex(inp['first']) if inp.get('first') else None)
     elif k == 'generator':
         check_generator_stream(ctx, bytes.fromhex(inp['stream_seed']))
+    elif k == 'generator-live':
+        from pytoniq_core.crypto import keys as K
+        ws, stuck = guarded_mnemonic_new(ctx, K)
+        if stuck:
+            ctx.fail('generator-stuck:', f'mnemonic_new() did not return after {MAX_DRAWS} os.urandom draws', {'kind': 'generator-live'})
+        elif ws is not None:
+            check_generated(ctx, ws)
